@@ -129,7 +129,7 @@ def work(item):
     try:
         with warnings.catch_warnings():
             warnings.simplefilter("ignore")
-            {"ctor": _w_ctor, "sub": _w_sub, "mmd": _w_mmd, "nll": _w_nll, "io": _w_io, "reject": _w_reject}[kind](res, p)
+            {"ctor": _w_ctor, "sub": _w_sub, "mmd": _w_mmd, "nll": _w_nll, "io": _w_io, "reject": _w_reject, "typed": _w_typed}[kind](res, p)
     except ST.Inconclusive as e:
         res.ob(1)
         res.inconc(str(e))
@@ -444,6 +444,56 @@ def _w_io(res, p):
         res.candidate("save-load", f"{p['label']}: loaded {l1.distribution_dict} != saved {d.distribution_dict}", dict(p, clause="save-load", values={}), sub="save-load")
 
 
+def typed_bad(keys, weights, string_keys, qubits):
+    """ground: a distribution built from Python ints / numpy-free floats / mixed weights: normalised, proportional, marginal
+    in listed order, distances symmetric and zero on itself - numpy picks array dtypes from the kinds of numbers it is given"""
+    from fractions import Fraction
+    from orquestra.quantum.distributions import MeasurementOutcomeDistribution as MOD, compute_mmd, compute_jensen_shannon_divergence
+
+    keys = [tuple(k) for k in keys]
+    inp = {("".join(map(str, k)) if string_keys else k): w for k, w in zip(keys, weights)}
+    snap = list(inp.items())
+    d = MOD(inp)
+    if list(inp.items()) != snap or any(type(a[1]) is not type(b[1]) for a, b in zip(inp.items(), snap)):
+        return f"the constructor changed its input dictionary: {snap} -> {list(inp.items())}"
+    tot = sum(Fraction(w) for w in weights)
+    dd = d.distribution_dict
+    if list(dd.keys()) != keys:
+        return f"keys {list(dd.keys())}"
+    for k, w in zip(keys, weights):
+        if abs(dd[k] - float(Fraction(w) / tot)) > 1e-12:
+            return f"probability of {k} is {dd[k]}, want {float(Fraction(w) / tot)} (weights {weights})"
+    raw = MOD(dict(inp), normalize=False)
+    for src, scale in ((d, tot), (raw, 1)):
+        sub = src.subdistribution(list(qubits))
+        want = {}
+        for k, w in zip(keys, weights):
+            kk = tuple(k[q] for q in qubits)
+            want[kk] = want.get(kk, 0) + Fraction(w) / scale
+        got = sub.distribution_dict
+        if set(got) != set(want) or any(abs(got[k] - float(v)) > 1e-12 for k, v in want.items()):
+            return f"marginal on {qubits} of weights {weights}: {got}, want { {k: float(v) for k, v in want.items()} }"
+    other = MOD({k: w for k, w in zip(keys, list(weights[1:]) + list(weights[:1]))})
+    a, b = compute_mmd(d, other, {"sigma": 1.0}), compute_mmd(other, d, {"sigma": 1.0})
+    if abs(a - b) > 1e-12 or a < -1e-12 or abs(compute_mmd(d, MOD(dict(zip(keys, weights))), {"sigma": 1.0})) > 1e-12:
+        return f"mmd not symmetric / not zero on equal arguments ({a}, {b}) for weights {weights}"
+    j1, j2 = compute_jensen_shannon_divergence(d, other, {"epsilon": 1e-9}), compute_jensen_shannon_divergence(other, d, {"epsilon": 1e-9})
+    if abs(j1 - j2) > 1e-12:
+        return f"jsd not symmetric ({j1}, {j2})"
+    return None
+
+
+def _w_typed(res, p):
+    res.d["ground_instances"] += 1
+    res.d["instances"] -= 1
+    res.ob(1)
+    bad = typed_bad(p["keys"], p["weights"], p["string_keys"], p["qubits"])
+    if bad:
+        res.candidate("typed-weights", f"{p['label']}: {bad}", dict(p, clause="typed-weights", values={}), sub="typed-weights")
+    else:
+        res.ob(0, 1, "ground-numeric")
+
+
 def instances(tier, seed):
     rng = random.Random(seed * 7 + 4)
     items = []
@@ -482,6 +532,13 @@ def instances(tier, seed):
                      ("single outcome", [[[1, 0, 1, 1], 1.0]]), ("many digits", [[[0], 0.1], [[1], 0.7], [[2], 0.2]]), ("two-digit symbols in keys", [[[10, 0], 0.25], [[1, 11], 0.75]]),
                      ("weights summing to 1 only after rounding", [[[0], 0.1], [[1], 0.2], [[2], 0.30000000000000004], [[3], 0.4]])]:
         items.append(("io", {"dict": d, "label": label}))
+    # typed twins: weights that are all Python ints, all floats, mixed, big ints
+    k2 = [[0, 0], [0, 1], [1, 0], [1, 1]]
+    k3 = [[0, 0, 1], [0, 1, 0], [1, 0, 0], [1, 1, 1], [0, 1, 1]]
+    for keys, qubits in ((k2, [1]), (k2, [1, 0]), (k3, [2, 0]), (k3, [1, 2, 0])):
+        for wkind, ws in (("int", [3, 1, 2, 6, 4]), ("float", [0.375, 0.125, 0.25, 0.75, 0.5]), ("mixed", [1, 0.5, 2, 0.25, 3]), ("bigint", [10**18, 3 * 10**18, 1, 7, 10**17]), ("int-with-zero", [5, 0, 3, 0, 2])):
+            for sk in (False, True):
+                items.append(("typed", {"keys": keys, "weights": ws[: len(keys)], "string_keys": sk, "qubits": qubits, "label": f"typed weights {wkind} {ws[:len(keys)]} keys={'str' if sk else 'tuple'} nq={len(keys[0])} marginal {qubits}"}))
     return items
 
 
@@ -515,9 +572,9 @@ def replay(data):
     try:
         with warnings.catch_warnings():
             warnings.simplefilter("ignore")
-            if clause in ("bad-input-rejected", "save-load"):
+            if clause in ("bad-input-rejected", "save-load", "typed-weights"):
                 r = Result("replay")
-                (_w_reject if clause == "bad-input-rejected" else _w_io)(r, dict(p, label="replay"))
+                {"bad-input-rejected": _w_reject, "save-load": _w_io, "typed-weights": _w_typed}[clause](r, dict(p, label="replay"))
                 c = r.d["candidates"]
                 return bool(c), (c[0]["what"] if c else "ok")
             if "qubits" in p:
